@@ -167,6 +167,25 @@ def worker(arg):
         viols += v
         classes |= c
         n += k
+    # a substance keeps the density it was created with: re-configuring the defaults afterwards must not change its factors
+    olds, olde = pp.config.default_solid_density, pp.config.default_enzyme_density
+    solid, enz = mk(pp, SUBST[0]), mk(pp, SUBST[6])
+    want = {(fu, tu): [U.convert_from(sub_, 2.5, fu, tu) for sub_ in (solid, enz)]
+            for fu in ('g', 'mL', 'L') for tu in ('uL', 'L', 'mg', 'g')}
+    try:
+        pp.config.default_solid_density = 0.4 if olds != 0.4 else 0.7
+        pp.config.default_enzyme_density = 4.0 if olde != 4.0 else 3.0
+        for (fu, tu), w in want.items():
+            for sub_, kind, w1 in ((solid, 'solid', w[0]), (enz, 'enzyme', w[1])):
+                n += 1
+                got = U.convert_from(sub_, 2.5, fu, tu)
+                if not (got == w1 or abs(got - w1) <= 1e-12 * abs(w1)):
+                    viols.append(V(f"Unit.convert_from | depends-on-later-configuration | kind={kind}",
+                                   f"convert_from({sub_.name}, 2.5, {fu!r}, {tu!r}) was {w1!r} and became {got!r} after the default "
+                                   f"densities were re-configured, although the substance's own density is unchanged",
+                                   {'cfg': cfg, 'reconfigure': True}, w1, got))
+    finally:
+        pp.config.default_solid_density, pp.config.default_enzyme_density = olds, olde
     # storage conversions
     pm, pv = ref.storage_prefix(pp, 'mol'), ref.storage_prefix(pp, 'L')
     for p in PREFIXES:
